@@ -273,7 +273,7 @@ CLAIMED["C12"] = dict(
          "C12_literal_is_value: such a variable evaluates like the number written out). PARTIAL: the equivalence with the "
          "program TEXT in which the values are written out (parser, inference of unsuffixed numbers, compile_with_constants' "
          "own bookkeeping of sizes and missing / mistyped constants) is explored: programs whose array sizes, trip counts, repeat sizes and number of parties come from usize constants, and "
-         "generated programs in which literals are replaced by constants of every type (external values of 3 parties, nested "
+         "generated programs in which literals are replaced by constants of every type (external values of 3 parties, also used inside called functions, nested "
          "min/max/+/-, references to earlier constants, also as arguments of min / max; negative signed constants) are compiled with the constants supplied and, independently, from the "
          "text with the values written out: same input parties, same outputs; then constants are left out or supplied with "
          "another type: an error naming them, never a panic; the circuits compiled with constants are also compared with "
